@@ -18,7 +18,7 @@ def build_sim(sd, sanitize=True):
     okb, lgb, objs = V.build_impl(sd, sanitize=sanitize)
     if not okb:
         return False, lgb, None
-    okd, lgd, exe = V.build_driver(sd, "drv_sim", objs, sanitize=sanitize, srcs=["app.c"])
+    okd, lgd, exe = V.build_driver(sd, "drv_sim", objs, sanitize=sanitize, srcs=["app.c", "netshim.c"])
     return okd, lgb + lgd, exe
 
 
@@ -27,10 +27,12 @@ class SimResult:
 
 
 def run_sim(exe, prog, mode="parallel", threads=2, ckpt=0, gvt=1000, tend=0, stats="-", displog="-",
-            trace_file=None, trace_mask=0, watchdog=20, timeout=60, ranks=1, delay=None, sched=None, sched_log=None):
+            trace_file=None, trace_mask=0, watchdog=20, timeout=60, ranks=1, delay=None, sched=None, sched_log=None, net=None):
     env = {"VERIF_WATCHDOG": str(watchdog)}
     if delay:
         env["VERIF_DELAY"] = delay
+    if net:
+        env["VERIF_NET"] = net      # simulated network delays (harness/netshim.c), multi-rank runs only
     if sched:
         env["VERIF_SCHED"] = sched
         if sched_log:
@@ -49,8 +51,8 @@ def run_sim(exe, prog, mode="parallel", threads=2, ckpt=0, gvt=1000, tend=0, sta
         r.final = sorted(r.final, key=lambda l: int(l.split()[1]))
     r.hang = None
     for l in so.split("\n"):
-        if l.startswith("HANG"):
-            r.hang = l
+        if l.startswith("HANG"):       # one line per rank: the signature is taken over the workers of all ranks
+            r.hang = l if r.hang is None else r.hang + " " + " ".join(l.split()[1:])
     r.returned = sum(1 for l in so.split("\n") if l.startswith("RET 0")) == ranks
     r.sanitizer = ("ERROR: AddressSanitizer" in se) or ("runtime error:" in se)
     r.cmd = " ".join(cmd)
